@@ -11,6 +11,28 @@ def doc_label(path):
 
 
 def run(ctx):
+    """process-level probes are timing sensitive on a loaded machine: a finding must reproduce in a second,
+    independent run to be reported; one-off differences are counted as inconclusive"""
+    from ..runner import load_known
+    res = run_once(ctx)
+    known_open = {e["signature"] for e in load_known("C20") if e.get("status") == "open"}
+    fresh = [f for f in res.findings if f.signature not in known_open]
+    if fresh:
+        again = run_once(ctx)
+        sigs2 = {f.signature for f in again.findings}
+        kept = []
+        for f in res.findings:
+            if f.signature in sigs2 or f.signature in known_open:
+                kept.append(f)
+            else:
+                res.inconclusive += 1
+                res.inconclusive_notes.append("not reproduced in a second run: %s: %s" % (f.signature, f.detail[:200]))
+        res.findings = kept
+        res.extra["second_run_for_confirmation"] = True
+    return res
+
+
+def run_once(ctx):
     res = Result("C20")
     binary, hooks = ctx.binary()
     res.extra["hooks_available"] = hooks
@@ -45,6 +67,10 @@ def run(ctx):
             res.evaluations += 1
             eff[lab] = k["status"] + ("" if k["status"] != "effect" else " (" + ",".join(k["differs_in"][:3]) + ")")
             res.distinct.add("key:" + lab + ":" + k["status"])
+            if k["status"] == "inconclusive":
+                res.inconclusive += 1
+                res.inconclusive_notes.append("key %s: %s" % (lab, k.get("why")))
+                continue
             if k["status"] == "no-effect":
                 res.findings.append(Finding("boot:documented-key-without-effect:" + lab,
                                             "config-example.toml documents the key '%s' but changing its value from %s to %s changes "
